@@ -106,7 +106,10 @@ Definition smm_new (n : Z) (v : F) : outcome smm :=
   Ok (mkSMM half (sat_sub half (if n mod 2 =? 0 then 1 else 0)) (w_new_t n v) (repeat v (Z.to_nat n))).
 Definition smm_peek_o (s : smm) : outcome F :=
   match nth_error (smm_slice s) (Z.to_nat (smm_half s)), nth_error (smm_slice s) (Z.to_nat (smm_half_m1 s)) with
-  | Some a, Some b => Ok (fmul (fadd a b) (flit 1 2))
+  | Some a, Some b =>
+      let sum := fadd a b in
+      (* the sum of two finite values above half of the range overflows: then the operands are halved first *)
+      Ok (if fis_finite sum then fmul sum (flit 1 2) else fadd (fmul a (flit 1 2)) (fmul b (flit 1 2)))
   | _, _ => Panic "smm:peek:index"
   end.
 Definition smm_peek (s : smm) : F := match smm_peek_o s with Ok v => v | _ => f0 end.
